@@ -56,6 +56,14 @@ def judge_vector(ctx, args, shown, step, with_eqv, leg):
         return
     items = val["v"]
     names = PREDS + ["max", "min"] + (["eqv?"] if with_eqv else [])
+    extra = items[len(names)] if len(items) > len(names) else None
+    if extra is not None and "l" in extra and not any(isinstance(a, Real) and a.value != a.value for a in args):
+        flags = [x.get("b") for x in extra["l"]]
+        half = len(flags) // 2
+        ctx.count("checked_extreme_is_an_argument")
+        if not any(flags[:half]) or not any(flags[half:]):
+            ctx.violation({"what": "the value of max / min is not = to any of its arguments", "kind": "cmp", "op": "max" if not any(flags[:half]) else "min", "expr": shown,
+                           "observed": flags, "leg": leg, "dedupe": "extreme-arg|" + key}, {"expr": shown, "leg": leg})
     for name, o in zip(names, items):
         ctx.evaluations += 1
         try:
@@ -123,6 +131,8 @@ def run_leg(ctx, leg, g, tuples):
             ex = ["(%s %s)" % (p, names) for p in PREDS + ["max", "min"]]
             if len(t) == 2:
                 ex.append("(eqv? %s)" % names)
+            # model-free: the value of max / min is = to at least one argument (the comparisons and max/min convert exact operands the same way)
+            ex.append("((lambda (mx mn) (list %s %s)) (max %s) (min %s))" % (" ".join("(= mx n%d)" % i for i in t), " ".join("(= mn n%d)" % i for i in t), names, names))
             steps.append({"src": "(vector %s)" % " ".join(ex)})
         jobs.append({"id": "c10-%s-%d" % (leg, k), "interps": [{"stdlib": True}], "steps": steps, "fuel": 10000})
         if len(jobs) % 4 == 2:
